@@ -10,6 +10,7 @@ import QscModel.Hand.Diag
 import QscModel.Hand.Vmec
 import QscModel.Hand.Fmin
 import QscModel.Hand.ShearTail
+import QscModel.Hand.RSing
 /-! Dispatch of hand-written kernels for the driver: `hand <kernel> <args>*` -> lines `out <name> <values>*`. -/
 namespace Hand
 instance : NatCast Float := ⟨Float.ofNat⟩
@@ -141,6 +142,15 @@ def dispatch (kernel : String) (args : List String) : List String :=
       let solve : (Nat → Float) → (Nat → Float) := fun _ k => getF v (2 * nax + 6 * n + k)
       [outI "sym" [if sym then 1 else 0], outF "avSig" [ShearTail.avSig (arr 0) (arr 1) n],
        outF "iota2" [ShearTail.iota2 Float.exp solve sym pi (fl b0) (fl iotaN) nfp (arr 0) (arr 3) (arr 4) (arr 5) (arr 1) (arr 2) n]]
+  | "rsing", [g0, g1c, g20, g2s, g2c, K0, K2s, K2c, K4s, K4c, re0, re1, re2, re3, im0, im1, im2, im3] =>
+      -- one grid point of `calculate_r_singularity`: 10 scalars, 4 real parts, 4 imaginary parts of `polyroots`
+      let c : RSing.Coef Float := { g0 := fl g0, g1c := fl g1c, g20 := fl g20, g2s := fl g2s, g2c := fl g2c, K0 := fl K0, K2s := fl K2s, K2c := fl K2c, K4s := fl K4s, K4c := fl K4c }
+      match RSing.point RSing.floatSc c [(fl re0, fl im0), (fl re1, fl im1), (fl re2, fl im2), (fl re3, fl im3)] with
+      | some rc => [outF "rc" [rc], outF "inv" [RSing.inv RSing.floatSc rc]]
+      | none => [outI "error" [1]]
+  | "rsingmin", rest =>
+      -- `np.min(r_singularity_vs_varphi)`
+      [outF "min" [RSing.gridMin RSing.floatSc (rest.map fl)]]
   | "dof", lines =>
       -- one argument per op line, with '_' standing for the blanks inside a line ("set_1_2_3"); one `out resp` per line
       (Dof.runOps (lines.map fun l => l.replace "_" " ")).map fun r => s!"out resp {r}"
